@@ -2,7 +2,7 @@
 import ast
 
 from vstat.loader import AnalysisError
-from vstat.terms import builder, show, SELF, NONE, G, alts, walk, mentions, phi, strip_none, galts
+from vstat.terms import IT, builder, show, SELF, NONE, G, alts, walk, mentions, phi, strip_none, galts
 from vstat.guards import path_conditions
 from vstat.cfg import cfg_of
 from vstat.sigs import bind
@@ -74,7 +74,7 @@ def save(prog, rep):
               "C20.save", f"{q}:layout", site, "delimiter=';', comments=''",
               f"columns must be separated by ';' and the header written without comment prefix; found delimiter={show(bd.get('delimiter', NONE))} comments={show(bd.get('comments', NONE))}")
     # path rule
-    ext = ("item", ("call", G("os.path.splitext"), (fp,), ()), 1)
+    ext = IT(("call", G("os.path.splitext"), (fp,), ()), 1)
     want = {fp, ("bin", "+", fp, ("const", ".txt"))}
     got = alts(bd.get("fname", NONE))
     ok = got == want
@@ -112,11 +112,31 @@ def swap_map(fn, b, rep, rule, q):
     return ("gphi", X), ("gphi", Y)
 
 
+def closed_series(v):
+    """base if v is 'base followed by base[0]' in one expression: np.append(b, b[0]), np.concatenate((b, [b[0]])), np.r_[b, b[0]],
+    [*b, b[0]], b + [b[0]], b + b[:1]; else None."""
+    first = lambda base: ("sub", base, ("const", 0))
+    if v[0] == "call" and v[1] == G("numpy.append") and len(v[2]) == 2 and not v[3] and v[2][1] in (first(v[2][0]), ("list", (first(v[2][0]),))):
+        return v[2][0]
+    if v[0] == "call" and v[1] in (G("numpy.concatenate"), G("numpy.hstack")) and len(v[2]) == 1 and v[2][0][0] in ("tuple", "list") and len(v[2][0][1]) == 2:
+        base, last = v[2][0][1]
+        if last in (("list", (first(base),)), ("sub", base, ("slice", NONE, ("const", 1), NONE))):
+            return base
+    if v[0] == "sub" and v[1] == G("numpy.r_") and v[2][0] == "tuple" and len(v[2][1]) == 2 and v[2][1][1] == first(v[2][1][0]):
+        return v[2][1][0]
+    if v[0] == "list" and len(v[1]) == 2 and v[1][0][0] == "star" and v[1][1] == first(v[1][0][1]):
+        return v[1][0][1]
+    if v[0] == "bin" and v[1] == "+" and v[3] in (("list", (first(v[2]),)), ("sub", v[2], ("slice", NONE, ("const", 1), NONE))):
+        return v[2]
+    return None
+
+
 def contour(prog, rep):
     q = f"{PL}.plot_2D_contour"
     fn = prog.func(q)
     rep.analysed(fn)
-    b = builder(prog, fn, inline=False, guarded=True)
+    # small helpers (label formatting, polyline closing) are looked through; the calls the rule reasons about stay opaque
+    b = builder(prog, fn, inline=True, guarded=True, no_inline=("calculate_design_conditions", "get_default_semantics"))
     pcs = path_conditions(prog, fn, b)
     XI, YI = swap_map(fn, b, rep, "C20.contour", q)
     coords = ("attr", P("contour"), "coordinates")
@@ -125,19 +145,20 @@ def contour(prog, rep):
         raise AnalysisError(f"{q}: expected one ax.plot call")
     st, node, t = plots[0]
     site = fn.where(st)
+    def series(v, idx):
+        return v in (("col", coords, idx), ("call", ("attr", ("col", coords, idx), "tolist"), (), ()), ("call", G("list"), (("col", coords, idx),), ()))
     wantx = ("call", ("attr", ("col", coords, XI), "tolist"), (), ())
-    wanty = ("call", ("attr", ("col", coords, YI), "tolist"), (), ())
-    alt_x = ("call", G("numpy.append"), (("col", coords, XI), ("sub", ("col", coords, XI), ("const", 0))), ())
-    alt_y = ("call", G("numpy.append"), (("col", coords, YI), ("sub", ("col", coords, YI), ("const", 0))), ())
-    ok = len(t[2]) >= 2 and t[2][0] in (wantx, alt_x) and t[2][1] in (wanty, alt_y)
+    px, py = (t[2] + (NONE, NONE))[:2]
+    cx, cy = closed_series(px), closed_series(py)
+    ok = len(t[2]) >= 2 and series(cx if cx is not None else px, XI) and series(cy if cy is not None else py, YI)
     rep.check(ok, "C20.contour", f"{q}:polyline", site, "plot(coordinates[:, x_idx], coordinates[:, y_idx]) with (x_idx, y_idx) = (1, 0) iff swap_axis",
               f"the line must be column x_idx against column y_idx of contour.coordinates, indices (1, 0) iff swap_axis else (0, 1); found x={show(t[2][0])[:140] if t[2] else None} y={show(t[2][1])[:140] if len(t[2]) > 1 else None}")
     # closing: name.append(name[0]) for both plotted names, between their definition and the plot
-    if ok and t[2][0] == wantx:
+    if ok:
         closed = []
-        for arg in node.args[:2]:
-            good = False
-            if isinstance(arg, ast.Name):
+        for arg, cexpr in zip(node.args[:2], (cx, cy)):
+            good = cexpr is not None
+            if not good and isinstance(arg, ast.Name):
                 for s2 in cfg_of(fn).all_stmts():
                     if isinstance(s2, ast.Expr) and isinstance(s2.value, ast.Call) and isinstance(s2.value.func, ast.Attribute) and s2.value.func.attr == "append" \
                             and isinstance(s2.value.func.value, ast.Name) and s2.value.func.value.id == arg.id and len(s2.value.args) == 1:
